@@ -158,6 +158,37 @@ Definition deciding_kind (st : state) (m : cmd) : option wtkind :=
 
 End Sig.
 
+(* ---------- work type names ---------- *)
+
+(* The registered work types of a node: name -> verifysignature.  Go looks a name up in a map, i.e.
+   by exact byte equality: no case folding, no trimming.  ONE function of the submitted name,
+   [classify], feeds both the verification decision (ShouldVerifySignature) and the allocation
+   (AllocateUnit), so the decision is always taken for the type the unit is created with. *)
+Definition registry := list (bytes * bool).
+
+Fixpoint reg_lookup (name : bytes) (r : registry) : option bool :=
+  match r with
+  | [] => None
+  | (n, v) :: r' => if beq_bytes n name then Some v else reg_lookup name r'
+  end.
+
+Definition s_remote : bytes := [114; 101; 109; 111; 116; 101].   (* "remote" *)
+
+Definition classify (r : registry) (name : bytes) (signwork : bool) : wtkind :=
+  if beq_bytes name s_remote then WRemote signwork
+  else match reg_lookup name r with
+       | Some true => WVerify
+       | Some false => WPlain
+       | None => WUnknown
+       end.
+
+(* the WorkType a created unit records: the submitted name itself, or "remote" for another node *)
+Definition recorded_type (name : bytes) (remote : bool) : bytes := if remote then s_remote else name.
+
+Definition exec_submit_name (jwt : bytes -> jwt_result) (key_ok : bool) (r : registry) (st : state)
+           (c : conn) (tok : bytes) (newid : N) (name : bytes) (remote signwork : bool) :=
+  exec jwt key_ok st c tok (Submit newid (classify r name signwork) remote signwork).
+
 (* ---------- correspondence cases ---------- *)
 
 Inductive cmdtag := TSubmit (k : wtkind) (remote signwork : bool) | TCancel | TRelease (force : bool) | TResults.
@@ -187,3 +218,26 @@ Definition sig_check (x : sig_case) : bool :=
   let '(st', r, effs) := exec (fun _ => sc_jwt x) (sc_key x) st (sc_conn x) tok m in
   Bool.eqb (negb (match effs with [] => true | _ => false end)) (sc_effect x)
   && (reply_class r =? sc_reply x).
+
+(* a submit observed with the SUBMITTED spelling of the work type and, when a unit was created, the
+   WorkType its status record shows *)
+Inductive sig_obs :=
+| SCase (x : sig_case)
+| SName (key : bool) (c : conn) (tok_empty : bool) (j : jwt_result) (r : registry)
+        (name : bytes) (remote signwork : bool)
+        (effect : bool) (reply : N) (recorded : option bytes).
+
+Definition sig_obs_check (o : sig_obs) : bool :=
+  match o with
+  | SCase x => sig_check x
+  | SName key c tok_empty j r name remote signwork effect reply recorded =>
+    let tok := if tok_empty then [] else [1] in
+    let '(st', rp, effs) := exec_submit_name (fun _ => j) key r [] c tok 2 name remote signwork in
+    Bool.eqb (negb (match effs with [] => true | _ => false end)) effect
+    && (reply_class rp =? reply)
+    && match effs, recorded with
+       | [], None => true
+       | _ :: _, Some t => beq_bytes t (recorded_type name remote)
+       | _, _ => false
+       end
+  end.
